@@ -333,7 +333,18 @@ impl<M: wire::Decode> wire::Decode for Frame<M> {
             Ok(StreamKind::Gossip) => {
                 let data = varint::payload::decode(reader)?;
                 let mut cursor = io::Cursor::new(data);
-                let msg = M::decode(&mut cursor)?;
+                // Nb. The payload is complete here: running out of bytes while decoding the
+                // message means the message is invalid, not that we should wait for more data.
+                let msg = M::decode(&mut cursor).map_err(|e| {
+                    if e.is_eof() {
+                        wire::Error::Io(io::Error::new(
+                            io::ErrorKind::InvalidData,
+                            "truncated message in frame",
+                        ))
+                    } else {
+                        e
+                    }
+                })?;
                 let frame = Frame {
                     version,
                     stream,
